@@ -230,7 +230,17 @@ def run_shard(rec, tier, seed, shard, nshards):
                 arity = int(rng.choice([1, 2, 2]))
                 kw = gen.realistic_screen_kwargs(rng, n_samples=(2, 5), n_drugs=(2, 3), n_doses=(1, 2), n_rows=(6, 24), n_plates=(1, 3), observed="all", arity=arity, p_double_control=0.0)
                 screen = Screen(**kw)
-                sp = ExperimentSpace.from_screen(screen)
+                variant = str(rng.choice(["whole", "superset-mapping", "view"]))
+                if variant != "whole" and screen.size >= 4:
+                    keep = rng.random(screen.size) < 0.6
+                    if keep.sum() >= 2 and len(set(str(x) for x in screen.sample_names[keep])) >= 2:
+                        if variant == "view":
+                            screen = screen.subset(keep)  # a view: the parent's mappings, fewer rows
+                        else:
+                            kw2 = {k_: (v_[keep] if isinstance(v_, np.ndarray) else v_) for k_, v_ in kw.items()}
+                            screen = Screen(treatment_mapping=screen.treatment_mapping, sample_mapping=screen.sample_mapping, **kw2)
+                        rec.count("correlation_cases_rows_do_not_cover_mapping")
+                sp = ExperimentSpace(treatment_mapping=screen.treatment_mapping, sample_mapping=screen.sample_mapping, control_treatment_name=screen.control_treatment_name)
                 T = int(rng.integers(1, 5))
                 holder = ThetaHolder(n_thetas=T)
                 for _ in range(T):
